@@ -112,8 +112,9 @@ def compute(events, spec, plan=None, opts=None):
             # kinds_seq say so themselves), None = the static kind
             started.setdefault(e['id'], []).append(e.get('ek'))
         elif k in ('layer.setUp.exit', 'layer.tearDown.exit'):
-            if not e.get('ok') and e.get('exc') != 'NotImplementedError':
-                hook = 'setUp' if 'setUp' in k else 'tearDown'
+            hook = 'setUp' if 'setUp' in k else 'tearDown'
+            if not e.get('ok') and (hook == 'setUp' or
+                                    e.get('exc') != 'NotImplementedError'):
                 T.layer_failures.append('Layer: %s.%s' % (
                     vworld.full_layer_name(spec, e['layer']), hook))
         elif k == 'crash':
